@@ -46,7 +46,7 @@ fn fwd(op: &Op, _ctx: &dyn Context, operands: &mut dyn CoordinateSet) -> usize {
             .atan()
             - FRAC_PI_2;
 
-        let lam_p = c * (lam - lam_0);
+        let lam_p = c * angular::normalize_symmetric(lam - lam_0);
         let (sin_lam_p, cos_lam_p) = lam_p.sin_cos();
         let (sin_phi_p, cos_phi_p) = phi_p.sin_cos();
 
